@@ -898,6 +898,39 @@ func (p *Prog) envStep(s ast.Stmt, cur ienv) ienv {
 					if call, ok := ast.Unparen(x.Rhs[i]).(*ast.CallExpr); ok {
 						if p.zeroLimbsResult(call, cur) {
 							p.setLimbsZero(out, l)
+						} else if sel, isSel := call.Fun.(*ast.SelectorExpr); isSel && len(call.Args) == 1 {
+							// v.mul64(K): top word <= (top+1)·K - 1 when that still fits a word
+							cn := p.calleeName(call)
+							if dot := strings.Index(cn, "."); dot > 0 && strings.HasPrefix(cn, "uint") && cn[dot+1:] == "add64" {
+								// v.add64(c) raises the top word by at most one carry (a subtraction may borrow through zero: no bound)
+								n := limbsOf(p.typeOf(sel.X))
+								if rk := p.exprKey(sel.X); rk != "" && n > 1 && n == limbsOf(p.typeOf(l)) {
+									if v, ok := cur[rk+"["+itoa(n-1)+"]"]; ok && v.hi != nil {
+										t := new(big.Int).Set(v.hi)
+										if cn[dot+1:] == "add64" {
+											t.Add(t, big.NewInt(1))
+										}
+										if t.BitLen() <= 64 {
+											out[k+"["+itoa(n-1)+"]"] = ival{lo: big.NewInt(0), hi: t}
+										}
+									}
+								}
+							}
+							if dot := strings.Index(cn, "."); dot > 0 && strings.HasPrefix(cn, "uint") && cn[dot+1:] == "mul64" {
+								n := limbsOf(p.typeOf(sel.X))
+								if kc, ok := constBig(p.constOf(call.Args[0])); ok && n > 1 && n == limbsOf(p.typeOf(l)) {
+									if rk := p.exprKey(sel.X); rk != "" {
+										if v, ok := cur[rk+"["+itoa(n-1)+"]"]; ok && v.hi != nil {
+											t := new(big.Int).Add(v.hi, big.NewInt(1))
+											t.Mul(t, kc)
+											t.Sub(t, big.NewInt(1))
+											if t.BitLen() <= 64 {
+												out[k+"["+itoa(n-1)+"]"] = ival{lo: big.NewInt(0), hi: t}
+											}
+										}
+									}
+								}
+							}
 						}
 					} else if limbsOf(p.typeOf(l)) > 1 {
 						// a plain copy of a limb value carries its limb intervals
@@ -958,6 +991,16 @@ func (p *Prog) envStep(s ast.Stmt, cur ienv) ienv {
 						p.setLimbsZero(out, l)
 					}
 					if i == 0 {
+						// coefficients produced by decompose and by the rounding kernel stay within the coefficient
+						// limit 5·2^111-1 (E3.codec: decompose's masks; E8.round/E7.G2: the kernel's final loops)
+						if cn := p.calleeName(call); cn == "Decimal.decompose" || strings.HasPrefix(cn, "RoundingMode.reduce") || cn == "RoundingMode.round" {
+							if n := limbsOf(p.typeOf(l)); n == 2 {
+								top := k + "[1]"
+								if _, have := out[top]; !have {
+									out[top] = ival{lo: big.NewInt(0), hi: new(big.Int).SetUint64(coefLimitHi())}
+								}
+							}
+						}
 						// q, r = x.divK(): the quotient's top word does not exceed the dividend's
 						if sel, ok := call.Fun.(*ast.SelectorExpr); ok && len(call.Args) == 0 {
 							cn := p.calleeName(call)
@@ -966,8 +1009,16 @@ func (p *Prog) envStep(s ast.Stmt, cur ienv) ienv {
 								if rk := p.exprKey(sel.X); rk != "" && n > 1 && n == limbsOf(p.typeOf(l)) {
 									if v, ok := cur[rk+"["+itoa(n-1)+"]"]; ok && v.hi != nil {
 										top := k + "[" + itoa(n-1) + "]"
+										hi := v.hi
+										// a division by 10^k divides the top word by 10^k as well (rounded down)
+										if p.ivDivK == nil {
+											p.ivDivK, _ = p.divKTable()
+										}
+										if info, ok := p.ivDivK[cn]; ok && info.Log10 > 0 && info.Log10 < 40 {
+											hi = new(big.Int).Quo(v.hi, pow10(info.Log10))
+										}
 										if _, have := out[top]; !have {
-											out[top] = ival{lo: big.NewInt(0), hi: v.hi}
+											out[top] = ival{lo: big.NewInt(0), hi: hi}
 										}
 									}
 								}
@@ -1492,6 +1543,9 @@ func (p *Prog) calleeSummary(call *ast.CallExpr, env ienv) []ivResult {
 	}
 	if fd.Recv != nil && strings.HasPrefix(recvTypeName(fd.Recv.List[0].Type), "uint") {
 		return nil // the integer kernel is summarised by zeroLimbsResult only
+	}
+	if cn := p.calleeName(call); cn == "Decimal.decompose" || strings.HasPrefix(cn, "RoundingMode.") {
+		return nil // results known by contract (see the tuple-assignment transfer)
 	}
 	if fd.Type.Results != nil {
 		for _, f := range fd.Type.Results.List {
